@@ -245,6 +245,9 @@ func (m *Mirror) HandleProposedHeader(ctx context.Context, ph tmconsensus.Propos
 		return tmconsensus.HandleProposedHeaderMissingProposerPubKey
 	}
 
+	// Whether we already tried to backfill the previous height's commit from this header.
+	triedBackfill := false
+
 RESTART:
 	req := tmi.PHCheckRequest{
 		PH:   ph,
@@ -279,6 +282,13 @@ RESTART:
 		return tmconsensus.HandleProposedHeaderSignerUnrecognized
 	case tmi.PHCheckNextHeight:
 		// Special case: we make an additional request to the kernel if the PH is for the next height.
+		if triedBackfill {
+			// The backfill did not advance the voting height,
+			// so this header remains beyond what we can handle.
+			// Without this return we would re-check and backfill forever.
+			return tmconsensus.HandleProposedHeaderRoundTooFarInFuture
+		}
+		triedBackfill = true
 		m.backfillCommitForNextHeightPE(ctx, req.PH)
 		goto RESTART // TODO: find a cleaner way to apply the proposed block after backfilling commit.
 	case tmi.PHCheckRoundTooOld:
